@@ -598,7 +598,8 @@ class Replayer:
         B = self.curve_from(a["other"])
         snapB = self.project(B)
         out = {"eq": [A == B], "ne": [A != B], "sym": [B == A], "other_unchanged": self.project(B) == snapB}
-        if self.mode.exact and self.mode.name == "fraction" and A.ctrlpoints is not None and B.ctrlpoints is not None:
+        if self.mode.exact and self.mode.name == "fraction" and A.ctrlpoints is not None and B.ctrlpoints is not None \
+                and (getattr(self, "all_variants", False) or (len(a["other"]["U"]) + len(a["other"]["P"]) + A.npts) % 2 == 0):
             # both curves translated by the same huge exact constant: the same answer (equality of functions is
             # translation invariant); differences far above 1e-9 must not drown in the magnitude of the points
             T = 10 ** 20 + Fraction(1, 3)
@@ -979,10 +980,12 @@ class Replayer:
                             p *= 3
                         except Exception:
                             pass
-            for mutate in ((lambda: r.degree_increase(1)) if isinstance(r, self.Curve) else (lambda: r.shift(1)),
+            # (cheap, state-sharing-revealing changes only: the knot vector object is moved in place, then the curve is
+            # given other points; an elevation here would cost more than the transition itself)
+            for mutate in ((lambda: r.knotvector.shift(1)) if isinstance(r, self.Curve) else (lambda: r.shift(1)),
                            (lambda: setattr(r, "ctrlpoints", [2 * p + 1 for p in r.ctrlpoints])) if isinstance(r, self.Curve)
                            else (lambda: r.scale(2)),
-                           (lambda: r.knotvector.shift(1)) if isinstance(r, self.Curve) else (lambda: r.normalize())):
+                           (lambda: r.knotvector.scale(2)) if isinstance(r, self.Curve) else (lambda: r.normalize())):
                 try:
                     mutate()
                 except Exception:
